@@ -214,3 +214,22 @@ package reconciler
 //@   flag dyncall.CloneObject=pure
 //@   atcall RWTable.Get@1 requires @reread-under-the-write-transaction $1 == wtxn
 //@   atcall RWTable.Insert@1 requires @only-the-version-just-reread $1 == wtxn && ok && rev == newRev
+
+// reconcileLoop / prune (C15, C16): Prune runs only once the table's initialisation channel has
+// fired, on the snapshot of this round, and is given the table's complete contents (Table.All of
+// that snapshot); the progress tracker is updated with exactly what the round returned.
+//@ func (*reconciler).prune
+//@   property C15
+//@   flag nosafety
+//@   maypanic
+//@   mustcall RWTable.All@1 when @prune-gets-the-whole-table true
+//@   atcall RWTable.All@1 requires @all-of-this-snapshot $1 == txn
+//@   atcall Operations.Prune@1 requires @prune-on-this-snapshot $2 == txn && $3 == iter
+//@ func (*reconciler).reconcileLoop
+//@   property C15 C16
+//@   flag nosafety
+//@   maypanic
+//@   flag assumepre=reconciler-fields-initialised-and-no-root-mutex-held
+//@   atcall (*reconciler).prune@1 requires @prune-only-when-initialized tableInitialized && $2 == txn
+//@   atcall (*progressTracker).update@1 requires @progress-is-what-the-round-returned $1 == lastRevision && $2 == retryLowWatermark
+//@   loop 1 invariant @initialized-only-after-the-init-channel-fired tableInitialized ==> tableInitWatch == nil
